@@ -23,12 +23,12 @@ type Doc struct {
 	Vals []*Doc
 }
 
-func dNull() *Doc                   { return &Doc{K: 'z'} }
-func dBool(b bool) *Doc             { return &Doc{K: 'b', B: b} }
-func dNum(s string) *Doc            { return &Doc{K: 'n', N: decimal.RequireFromString(s)} }
-func dDec(d decimal.Decimal) *Doc   { return &Doc{K: 'n', N: d} }
-func dStr(s string) *Doc            { return &Doc{K: 's', S: s} }
-func dArr(xs ...*Doc) *Doc          { return &Doc{K: 'a', A: xs} }
+func dNull() *Doc                 { return &Doc{K: 'z'} }
+func dBool(b bool) *Doc           { return &Doc{K: 'b', B: b} }
+func dNum(s string) *Doc          { return &Doc{K: 'n', N: decimal.RequireFromString(s)} }
+func dDec(d decimal.Decimal) *Doc { return &Doc{K: 'n', N: d} }
+func dStr(s string) *Doc          { return &Doc{K: 's', S: s} }
+func dArr(xs ...*Doc) *Doc        { return &Doc{K: 'a', A: xs} }
 func dObj(kv ...any) *Doc {
 	d := &Doc{K: 'o'}
 	for i := 0; i+1 < len(kv); i += 2 {
@@ -136,7 +136,9 @@ func logicalV(v reflect.Value) string {
 		var ps []string
 		for _, k := range v.MapKeys() {
 			ks := ""
-			if k.Kind() == reflect.Interface {
+			if k.Kind() == reflect.Interface && k.IsNil() {
+				ks = "<nil>"
+			} else if k.Kind() == reflect.Interface {
 				ks = fmt.Sprint(k.Elem().Interface())
 			} else {
 				ks = k.String()
